@@ -1862,6 +1862,14 @@ size_t rtosc_scan_arg_val(const char* src,
                                                            &type);
                     if(!arg->type) // the first occurrence determines the type
                      arg->type = type;
+                    else if(type != arg->type)
+                    {
+                        // the lossless part carries no type suffix:
+                        // read it with the type of the decimal part
+                        type = arg->type;
+                        if(type == 'd')
+                            fmtstr = "%lf%n";
+                    }
 
                     switch(type)
                     {
